@@ -13,6 +13,12 @@ CLAIMED = {
         text="Every subset of small exact grids per dimension (all 466 subsets of the 3x3 grid under the full 864-configuration product; subsets of the 4x4 grid, the unit cube (+centre), D=4/5 cube alphabets and a general-position moment-curve family under every single-axis deviation from the default configuration), every ordered arrangement for the Input ordering, and multiset / 2^+-40 scale / 2^30 shift / near-duplicate / clustered variants are built through both kernels in the release and the debug-assertion profile. Every Ok result is re-validated from its raw cells by an independent reference (Levels 1-3 at the configured guarantee incl. completion-time vertex links, convex embedding, exact empty-circumsphere outside the tolerance band, vertex/UUID/data/perturbation accounting, statistics identities); panics are violations. Exhaustive over the stated alphabets; nothing sampled.",
         note="Trusts the harness's exact arithmetic and reference validators; verdicts cover the listed alphabets only. Known genuine defects (non-Delaunay results certified in D>=4 and for one 2-D clustered family) are listed in known_findings.json by (dimension, kernel, input family, mechanism) and reported as KNOWN-FINDING lines.",
         design_ref="DESIGN.md section 4 (C01)"),
+    "C02": dict(
+        category="model_checking",
+        technique="explicit-state BFS over insertion histories on the real object (stateless re-execution of the real insert calls), reference-model check after every transition",
+        text="Breadth-first search whose transition is the real insert / insert_with_statistics call on a clone of the real DelaunayTriangulation: every history over the per-dimension point alphabet (3x3 grid, unit cube + centre, D=4/5 cube alphabets; duplicates, on-edge/on-vertex, collinear and coplanar bootstrap prefixes included) to the reported depth, from the empty triangulation and from batch-constructed seeds, under the default policies and every single-policy deviation (ValidationPolicy, TopologyGuarantee, repair policy, check policy) plus at most one mid-history policy change, both kernels, release and debug-assertion profiles. After every call, whatever it returned, the state must be the bootstrap state or pass the independent Level 1-3 reference at the current guarantee; Inserted must add exactly the caller's vertex and the returned key must resolve to it; under check policy EveryN(1) an Inserted state must have no certain empty-circumsphere violation. States are de-duplicated on an ordered dump that includes the hidden caches (hook).",
+        note="Exhaustive to the depth recorded in the evidence file only; alphabets are small exact grids. Trusts the reference validators, the exact oracle and that the hidden-state digest hook is read-only. Panicking transitions are counted but judged by C19.",
+        design_ref="DESIGN.md section 5 (C02)"),
     "C12": dict(
         category="exploration",
         technique="exhaustive enumeration of grid tuples x vertex orders x scale variants against an exact (bigint) sign oracle",
